@@ -763,8 +763,11 @@ def c18(tier):
     burst = dict(long_frame=True, long_lens=[16000, 16384, 20000, 70000] if q else [16000, 16384, 20000, 65536, 70000, 140000], long_split=False)
     specs += [recv_spec('burst-behind-reply', ['C18'], reads='joined', **burst),
               recv_spec('burst-tls-records', ['C18'], reads='tls16k', **burst)]
-    specs[-2].what = ('the upgrade reply and a burst of 16-70 KB behind it arrive in ONE read (plain transport, as much as the 64 KiB buffer takes): ' + specs[-2].what)
-    specs[-1].what = ('16 KiB TLS-like records, the upgrade reply split over two records (split position = solver variable), full records behind it: ' + specs[-1].what)
+    specs.append(recv_spec('payload-in-its-own-read', ['C18'], reads='header-own-read', long_frame=True, long_lens=[100, 4096, 5000, 65535], long_split=False, xval_stride=2))
+    specs[-1].what = ('the server writes frame header and payload separately: reply, header and payload (100 B - 64 KiB) are three reads, the payload read ends '
+                      'exactly at the frame end and the next frame arrives in a later read: ' + specs[-1].what)
+    specs[-3].what = ('the upgrade reply and a burst of 16-70 KB behind it arrive in ONE read (plain transport, as much as the 64 KiB buffer takes): ' + specs[-2].what)
+    specs[-2].what = ('16 KiB TLS-like records, the upgrade reply split over two records (split position = solver variable), full records behind it: ' + specs[-1].what)
     stalled = sched_spec('loop-vs-stalled-sender', ['C18'], [['loop'], ['send_stalled']], 1,
                          'thread 1 runs the REAL event loop (a Ping is available to read); thread 2 is inside send_text with its sendall held up by flow '
                          'control until the loop has read (the peer does not read while it is pushing): the loop must go on receiving - deliver the Ping, write '
